@@ -206,26 +206,31 @@ func (c MarshalCodec) UnmarshalConsensusMessage(b []byte, m *tmcodec.ConsensusMe
 		return err
 	}
 
+	// Build the result separately and assign it as a whole,
+	// so that a destination that was used before
+	// does not keep the variant of the earlier message.
+	var out tmcodec.ConsensusMessage
 	switch {
 	case jcm.ProposedHeader != nil:
 		var ph tmconsensus.ProposedHeader
 		if err := c.UnmarshalProposedHeader(jcm.ProposedHeader, &ph); err != nil {
 			return err
 		}
-		m.ProposedHeader = &ph
+		out.ProposedHeader = &ph
 	case jcm.PrevoteProof != nil:
 		var proof tmconsensus.PrevoteSparseProof
 		if err := c.UnmarshalPrevoteProof(jcm.PrevoteProof, &proof); err != nil {
 			return err
 		}
-		m.PrevoteProof = &proof
+		out.PrevoteProof = &proof
 	case jcm.PrecommitProof != nil:
 		var proof tmconsensus.PrecommitSparseProof
 		if err := c.UnmarshalPrecommitProof(jcm.PrecommitProof, &proof); err != nil {
 			return err
 		}
-		m.PrecommitProof = &proof
+		out.PrecommitProof = &proof
 	}
+	*m = out
 
 	return nil
 }
